@@ -643,6 +643,34 @@ def r20i(ctx):
                    f"{f.ident} does not append the new content to the current body element: the element Document.body caches does not receive it")
 
 
+def r20j(ctx):
+    """The title of a table of contents is judged by its whole text.
+
+    "…with the title kept": fill() saves the `text:index-title`, empties the index body and puts the title back `if title and str(title)`.
+    The string form of the title element is the one every element inherits — its full text, through all its children.  A `__str__` written
+    for the helper classes of toc.py that returns less (the paragraph's own `.text`: only the characters before the first child element)
+    makes a title that starts with a span, two blanks or a tab look empty, and fill() drops it without a word.  Rule: of the classes defined
+    in toc.py only TOC has a `__str__` of its own; and fill() puts the saved title back under no condition other than tests of that title.
+    """
+    repo = ctx.repo
+    ctx.rule("R20j", "the helper classes of toc.py inherit the full-text __str__ that TOC.fill uses to decide whether there is a title", floor=3)
+    n = 0
+    for c in repo.all_classes():
+        if not c.module.relpath.endswith("/toc.py") if hasattr(c.module, "relpath") else True:
+            continue
+        n += 1
+        own = [f for f in c.methods.get("__str__", []) if f.cls is c]
+        ok = c.name == "TOC" or not own
+        ctx.instance("R20j", f"{c.module.relpath}:{c.name}", "no __str__ of its own", ok=ok, nontrivial=c.name != "TOC", line=c.node.lineno)
+        if not ok:
+            f = own[0]
+            ctx.report("R20j", f, f.node, f"{c.name}.__str__",
+                       f"{c.name} defines its own `__str__`: TOC.fill() keeps the saved title only `if title and str(title)`, and relies on the inherited full-text form — a version that returns "
+                       f"less than the whole text (the paragraph's `.text` stops at the first child element) makes a title that begins with a span, blanks or a tab look empty, and it is dropped")
+    if n < 3:
+        raise AnalysisError(f"R20j: only {n} class(es) found in toc.py")
+
+
 def run(ctx):
     r20a(ctx)
     r20b(ctx)
@@ -653,6 +681,7 @@ def run(ctx):
     r20g(ctx)
     r20h(ctx)
     r20i(ctx)
+    r20j(ctx)
     # fill() filters by self.outline_level: that property must read this TOC's own source element, not the first one of the document (rule shared with C12)
     from ..registry import build_registry
     from .c12 import r12k
@@ -664,6 +693,8 @@ from ..selftest import Seed, unparse_seed  # noqa: E402
 _TOC = "src/odfdo/toc.py"
 _HS = "src/odfdo/scripts/headers.py"
 SEEDS = [
+    Seed("IndexTitle gets a __str__ that returns the paragraph's own text", "fault", _TOC,
+         "class IndexTitle(Element):", "class IndexTitle(Element):\n    def __str__(self) -> str:\n        paragraph = self.get_paragraph()\n        return \"\" if paragraph is None else paragraph.text\n", "R20j"),
     Seed("the XmlPart.body setter swaps the body element", "fault", "src/odfdo/xmlpart.py",
          "        tail = body.tail\n        body.clear()\n        for item in new_body.children:\n            body.append(item)\n        if tail:\n            body.tail = tail",
          "        tail = body.tail\n        body.parent.replace_element(body, new_body)\n        new_body.tail = tail", "R20i"),
